@@ -130,6 +130,10 @@ pub fn excluded(case: &cut::Case, trace: &str) -> Option<&'static str> {
     if case.pipe <= 256 {
         return Some("small_pipe");
     }
+    if case.shut > 0 {
+        // a stream whose shutdown takes time (and the extra begin issued meanwhile) is outside the model's alphabet
+        return Some("slow_shutdown");
+    }
     if trace.contains(" valid=0 ") {
         return Some("protocol_error_position");
     }
